@@ -1,7 +1,7 @@
 #!/usr/bin/env python3
 """Sensitivity / tolerance test of the plug-ins a64grammar.py and x86parser.py (work package G4).
 
-    /venv/bin/python tools/gen/tests/test_G4.py [-v] [--no-probe]        exit 0 = pass
+    /venv/bin/python tools/gen/tests/test_G4.py [-v] [--no-probe] [--fuzz]        exit 0 = pass
 
 The OSACA parser sources ($OSACA_REPO, default /repo) are copied into a temporary directory, the text is
 edited, and the plug-in functions are called directly on the copy (`translate.REPO` is pointed at it).
@@ -11,6 +11,9 @@ edited, and the plug-in functions are called directly on the copy (`translate.RE
     edited code are dumped structurally in a subprocess and must equal the baseline dump, and a fixed list of
     assembly lines / files is parsed by the edited code and must give the same result (skip with --no-probe).
   * REAL mutations: the plug-in output must CHANGE or the plug-in must fail.
+  * The seeded breaking changes under seeded/*/patch.diff that touch the parser sources: what the ORIGINAL plug-in
+    (commit 6178834) noticed, the new one must notice.
+  * --fuzz: the same comparison over every single-node mutation of the three source files (about 2000 mutants).
 """
 import importlib.util
 import os
@@ -652,6 +655,234 @@ REAL_X86 = [
 ]
 
 
+
+# ------------------------------------------------------------------------------------------ automatic transforms
+# behaviour-preserving AST transforms applied to a whole file (every function at once)
+import ast  # noqa: E402
+import copy  # noqa: E402
+
+def alpha_rename(tree):
+    for fn in [n for n in ast.walk(tree) if isinstance(n, ast.FunctionDef)]:
+        params = {a.arg for a in fn.args.args + fn.args.kwonlyargs}
+        stores = {n.id for n in ast.walk(fn) if isinstance(n, ast.Name) and isinstance(n.ctx, ast.Store)} - params
+        for n in ast.walk(fn):
+            if isinstance(n, ast.Name) and n.id in stores:
+                n.id = n.id + "_r"
+    return tree
+
+def flip_eq(tree):
+    for n in ast.walk(tree):
+        if isinstance(n, ast.Compare) and len(n.ops) == 1 and isinstance(n.ops[0], (ast.Eq, ast.NotEq)):
+            n.left, n.comparators[0] = n.comparators[0], n.left
+    return tree
+
+class SplitStr(ast.NodeTransformer):
+    def visit_Expr(self, node):
+        return node if isinstance(node.value, ast.Constant) else self.generic_visit(node)
+    def visit_JoinedStr(self, node):
+        return node
+    def visit_Constant(self, node):
+        if isinstance(node.value, str) and len(node.value) >= 2:
+            k = len(node.value) // 2
+            return ast.BinOp(left=ast.Constant(value=node.value[:k]), op=ast.Add(), right=ast.Constant(value=node.value[k:]))
+        return node
+def split_strings(tree):
+    return ast.fix_missing_locations(SplitStr().visit(tree))
+
+class IntExpr(ast.NodeTransformer):
+    def visit_Constant(self, node):
+        if isinstance(node.value, int) and not isinstance(node.value, bool):
+            return ast.BinOp(left=ast.Constant(value=node.value + 3), op=ast.Sub(), right=ast.Constant(value=3))
+        return node
+def int_exprs(tree):
+    return ast.fix_missing_locations(IntExpr().visit(tree))
+
+class Hoist(ast.NodeTransformer):
+    """every string/int constant of a method body (not docstrings, not defaults) bound to a local first"""
+    def visit_FunctionDef(self, fn):
+        consts = {}
+        class C(ast.NodeTransformer):
+            def visit_FunctionDef(s, n): return n
+            def visit_Lambda(s, n): return n
+            def visit_JoinedStr(s, n): return n
+            def visit_Expr(s, n):
+                return n if isinstance(n.value, ast.Constant) else s.generic_visit(n)
+            def visit_Constant(s, n):
+                if isinstance(n.value, (str, int)) and not isinstance(n.value, bool):
+                    name = consts.setdefault((type(n.value).__name__, n.value), "K%d" % len(consts))
+                    return ast.Name(id=name, ctx=ast.Load())
+                return n
+        body = fn.body
+        start = 1 if body and isinstance(body[0], ast.Expr) and isinstance(body[0].value, ast.Constant) else 0
+        newbody = [C().visit(st) for st in body[start:]]
+        pre = [ast.Assign(targets=[ast.Name(id=v, ctx=ast.Store())], value=ast.Constant(value=k[1]), lineno=0) for k, v in consts.items()]
+        fn.body = body[:start] + pre + newbody
+        return fn
+def hoist_consts(tree):
+    return ast.fix_missing_locations(Hoist().visit(tree))
+
+def if_else_swap(tree):
+    """if c: A else: B  ->  if not c: B else: A   (statements and conditional expressions)"""
+    for n in ast.walk(tree):
+        if isinstance(n, ast.If) and n.orelse and not (len(n.orelse) == 1 and isinstance(n.orelse[0], ast.If)):
+            n.test = ast.UnaryOp(op=ast.Not(), operand=n.test); n.body, n.orelse = n.orelse, n.body
+        elif isinstance(n, ast.IfExp):
+            n.test = ast.UnaryOp(op=ast.Not(), operand=n.test); n.body, n.orelse = n.orelse, n.body
+    return ast.fix_missing_locations(tree)
+
+def reassoc(tree):
+    """(a op b) op c -> a op (b op c) for + ^ | chains"""
+    class R(ast.NodeTransformer):
+        def visit_BinOp(self, n):
+            self.generic_visit(n)
+            if isinstance(n.op, (ast.Add, ast.BitXor, ast.BitOr)) and isinstance(n.left, ast.BinOp) and type(n.left.op) is type(n.op):
+                a, b, c = n.left.left, n.left.right, n.right
+                return self.visit_BinOp(ast.BinOp(left=a, op=n.op, right=ast.BinOp(left=b, op=type(n.op)(), right=c)))
+            return n
+    return ast.fix_missing_locations(R().visit(tree))
+
+def guards(tree):
+    """a trailing `if c: BODY` of a loop body becomes `if not c: continue` + BODY; `if c: continue` + REST becomes if not c: REST"""
+    for n in ast.walk(tree):
+        if isinstance(n, (ast.For, ast.While)) and n.body:
+            last = n.body[-1]
+            if isinstance(last, ast.If) and not last.orelse:
+                n.body = n.body[:-1] + [ast.If(test=ast.UnaryOp(op=ast.Not(), operand=last.test), body=[ast.Continue()], orelse=[])] + last.body
+            else:
+                for k, st in enumerate(n.body):
+                    if isinstance(st, ast.If) and not st.orelse and len(st.body) == 1 and isinstance(st.body[0], ast.Continue) and n.body[k + 1:]:
+                        n.body = n.body[:k] + [ast.If(test=ast.UnaryOp(op=ast.Not(), operand=st.test), body=n.body[k + 1:], orelse=[])]
+                        break
+    return ast.fix_missing_locations(tree)
+
+def loops_to_comprehensions(tree):
+    """acc = []; for x in it: acc.append(e)  ->  acc = [e for x in it]   (adjacent statements only)"""
+    for n in ast.walk(tree):
+        body = getattr(n, "body", None)
+        if not isinstance(body, list):
+            continue
+        k = 0
+        while k + 1 < len(body):
+            a, f = body[k], body[k + 1]
+            if (isinstance(a, ast.Assign) and len(a.targets) == 1 and isinstance(a.targets[0], ast.Name) and isinstance(a.value, ast.List)
+                    and not a.value.elts and isinstance(f, ast.For) and not f.orelse and len(f.body) == 1 and isinstance(f.body[0], ast.Expr)
+                    and isinstance(f.body[0].value, ast.Call) and isinstance(f.body[0].value.func, ast.Attribute)
+                    and f.body[0].value.func.attr == "append" and isinstance(f.body[0].value.func.value, ast.Name)
+                    and f.body[0].value.func.value.id == a.targets[0].id):
+                comp = ast.ListComp(elt=f.body[0].value.args[0], generators=[ast.comprehension(target=f.target, iter=f.iter, ifs=[], is_async=0)])
+                body[k:k + 2] = [ast.Assign(targets=a.targets, value=comp, lineno=a.lineno)]
+            k += 1
+    return ast.fix_missing_locations(tree)
+
+TRANSFORMS = [("alpha-rename every local", alpha_rename), ("a == b -> b == a", flip_eq), ("strings split into concatenations", split_strings),
+              ("ints as n+3-3", int_exprs), ("every constant of a method hoisted into a local", hoist_consts), ("if/else branches swapped under negation", if_else_swap), ("+ ^ | chains re-associated to the right", reassoc),
+              ("guard clauses <-> trailing if in loops", guards), ("append loops -> comprehensions", loops_to_comprehensions)]
+
+
+def ast_edit(tf):
+    return lambda text: ast.unparse(tf(ast.parse(text)))
+
+
+for _name, _tf in TRANSFORMS:
+    for _rel in (A64, BASE):
+        HARMLESS_A64.append(("auto, %s: %s" % (os.path.basename(_rel), _name), {_rel: ast_edit(_tf)}))
+    for _rel in (X86, BASE):
+        HARMLESS_X86.append(("auto, %s: %s" % (os.path.basename(_rel), _name), {_rel: ast_edit(_tf)}))
+
+
+# ------------------------------------------------------------------------------------------ differential fuzzing (--fuzz)
+def mutants(tree):
+    """yield (description, mutated tree)"""
+    nodes = list(ast.walk(tree))
+    for i, n in enumerate(nodes):
+        if isinstance(n, ast.Constant) and isinstance(n.value, str) and not isinstance(getattr(n, "_parent", None), ast.Expr):
+            for newv in ((n.value[1:] if len(n.value) > 1 else n.value + "q"), n.value + "Q"):
+                t2 = copy.deepcopy(tree); m = list(ast.walk(t2))[i]; m.value = newv
+                yield ("str %r -> %r line %d" % (n.value, newv, n.lineno), t2)
+        elif isinstance(n, ast.Constant) and isinstance(n.value, int) and not isinstance(n.value, bool):
+            t2 = copy.deepcopy(tree); m = list(ast.walk(t2))[i]; m.value = n.value + 1
+            yield ("int %r -> %r line %d" % (n.value, n.value + 1, n.lineno), t2)
+        elif isinstance(n, ast.Constant) and isinstance(n.value, bool):
+            t2 = copy.deepcopy(tree); m = list(ast.walk(t2))[i]; m.value = not n.value
+            yield ("bool %r flipped line %d" % (n.value, n.lineno), t2)
+        elif isinstance(n, ast.Compare) and len(n.ops) == 1:
+            sw = {ast.Eq: ast.NotEq, ast.NotEq: ast.Eq, ast.In: ast.NotIn, ast.NotIn: ast.In, ast.Is: ast.IsNot, ast.IsNot: ast.Is, ast.Lt: ast.GtE, ast.Gt: ast.LtE}
+            if type(n.ops[0]) in sw:
+                t2 = copy.deepcopy(tree); m = list(ast.walk(t2))[i]; m.ops = [sw[type(n.ops[0])]()]
+                yield ("cmp %s flipped line %d" % (type(n.ops[0]).__name__, n.lineno), t2)
+        elif isinstance(n, ast.BinOp) and isinstance(n.op, (ast.BitXor, ast.BitOr, ast.Add, ast.Pow, ast.LShift)):
+            sw = {ast.BitXor: ast.BitOr, ast.BitOr: ast.BitXor, ast.Add: ast.Sub, ast.Pow: ast.Mult, ast.LShift: ast.RShift}
+            t2 = copy.deepcopy(tree); m = list(ast.walk(t2))[i]; m.op = sw[type(n.op)]()
+            yield ("binop %s swapped line %d" % (type(n.op).__name__, n.lineno), t2)
+            if isinstance(n.op, (ast.BitXor, ast.BitOr)) or (isinstance(n.op, ast.Add) and not isinstance(n.left, ast.Constant)):
+                t2 = copy.deepcopy(tree); m = list(ast.walk(t2))[i]; m.left, m.right = m.right, m.left
+                yield ("binop %s operands swapped line %d" % (type(n.op).__name__, n.lineno), t2)
+        elif isinstance(n, ast.Call) and len(n.args) >= 2:
+            t2 = copy.deepcopy(tree); m = list(ast.walk(t2))[i]; m.args = m.args[:-1]
+            yield ("call last arg dropped line %d" % n.lineno, t2)
+        elif isinstance(n, ast.keyword):
+            pass
+    for i, n in enumerate(nodes):
+        if isinstance(n, ast.Call) and n.keywords:
+            t2 = copy.deepcopy(tree); m = list(ast.walk(t2))[i]; m.keywords = m.keywords[:-1]
+            yield ("call last keyword dropped line %d" % n.lineno, t2)
+        if isinstance(n, (ast.If,)) and not n.orelse:
+            t2 = copy.deepcopy(tree); m = list(ast.walk(t2))[i]; m.test = ast.Constant(value=True)
+            yield ("if test -> True line %d" % n.lineno, t2)
+
+
+def fuzz(old_gen):
+    """every single-node mutation (constants, comparison and binary operators, dropped arguments, `if` tests) of the
+    three files: whatever the ORIGINAL plug-in noticed must be noticed by the new one, except mutations that are in
+    fact harmless (operands of a commutative `+` swapped; a letter added to a character set that contains it)."""
+    import types
+    lost, stats = [], {}
+    tree_dir = make_tree({})
+    saved = {}
+    for gen, fn in list(GEN.items()) + [("old " + g, f) for g, f in old_gen.items()]:
+        mod = sys.modules.get(fn.__module__) or types.ModuleType("x")
+        g = fn.__globals__
+        if "_grammar_digests" in g:          # static sensitivity only; the digest would notice every grammar change
+            saved[id(g)] = (g, g["_grammar_digests"])
+            g["_grammar_digests"] = lambda: {"x": ["y"]}
+    try:
+        for gen, rels in (("A64Grammar", (A64, BASE)), ("X86Parser", (X86, BASE))):
+            for rel in rels:
+                path = os.path.join(tree_dir, rel)
+                src = open(os.path.join(REPO, rel), encoding="utf-8").read()
+                tree = ast.parse(src)
+                for p in ast.walk(tree):
+                    for c in ast.iter_child_nodes(p):
+                        c._parent = p
+                open(path, "w").write(ast.unparse(tree))
+                b_old, b_new = run_fn(old_gen[gen], tree_dir), run(gen, tree_dir)
+                assert b_old[0] == "ok" and b_new[0] == "ok" and b_old[1] == b_new[1]
+                for desc, t2 in mutants(tree):
+                    try:
+                        text = ast.unparse(t2)
+                        compile(text, rel, "exec")
+                    except Exception:
+                        continue
+                    open(path, "w").write(text)
+                    o, n = run_fn(old_gen[gen], tree_dir), run(gen, tree_dir)
+                    key = (gen, o != b_old, n != b_new)
+                    stats[key] = stats.get(key, 0) + 1
+                    if o != b_old and n == b_new:
+                        lost.append((gen, rel, desc))
+                open(path, "w").write(src)
+    finally:
+        for g, f in saved.values():
+            g["_grammar_digests"] = f
+    print("fuzz: (generator, noticed by the original plug-in, noticed by the new plug-in): number of mutants")
+    for k in sorted(stats):
+        print("   %s: %d" % (k, stats[k]))
+    bad = [l for l in lost if not ("operands swapped" in l[2] or re.search(r"-> '[^']*[Qq]' line", l[2]))]
+    print("fuzz: noticed by the original only: %d, of which not harmless: %d" % (len(lost), len(bad)))
+    for l in lost:
+        print("   %s%s" % ("NOT HARMLESS " if l in bad else "(harmless) ", l))
+    return ["fuzz: %s %s: %s lost" % l for l in bad]
+
+
 def main():
     failures = []
     base_tree = make_tree({})
@@ -760,6 +991,8 @@ def main():
                     print("  %-4s seeded %-40s %-10s old: %-14s new: %s" % (verdict, sd, gen, how(o1, old_noticed), how(n1, new_noticed)))
     else:
         print("seeded comparison skipped (no git history / seeded directory)")
+    if "--fuzz" in sys.argv and old_gen:
+        failures += fuzz(old_gen)
 
     for gen, (a, b, c, d) in counts.items():
         print("%s: harmless identical %d/%d, real mutations noticed %d/%d" % (gen, a, b, c, d))
